@@ -364,3 +364,56 @@ var c06Random = Register(Prop[c06RandomCase]{
 })
 
 func TestC06RandomDomain(t *testing.T) { Check(t, c06Random) }
+
+// ---------------------------------------------------------------------------------------
+// ill-typed expressions from the C02 generator: an error, never a panic
+
+var c06Expr = Register(Prop[c02Case]{
+	ID: "C06", Name: "ill-typed-expressions",
+	Gen: func(t *rapid.T) c02Case {
+		g := &exprGen{t: t, illRate: 4}
+		want := rapid.SampledFrom([]byte{'n', 'b', 's'}).Draw(t, "type")
+		return c02Case{E: g.gen(want, rapid.IntRange(1, 4).Draw(t, "depth")), Vars: genC02Vars(t)}
+	},
+	Run: func(c c02Case) Verdict {
+		v := decideC02(c, true)
+		v.NonTrivial = false
+		for _, cl := range v.Classes {
+			if cl == "ill-typed" {
+				v.NonTrivial = true
+			}
+		}
+		return v
+	},
+	Render: renderC02,
+})
+
+func TestC06IllTypedExpressions(t *testing.T) { Check(t, c06Expr) }
+
+var c06ExprTable = Register(Prop[c02Case]{ID: "C06", Name: "operator-table", Run: func(c c02Case) Verdict { return decideC02(c, true) }, Render: renderC02})
+
+func TestC06OperatorTable(t *testing.T) {
+	Enumerate(t, c06ExprTable, true, "every binary operator x every ordered pair of operand types x representative operands; both unary operators on every type: an error or a value, never a panic",
+		func(yield func(c02Case) bool) {
+			for _, op := range binaryOps {
+				for _, lt := range []byte{'n', 'b', 's'} {
+					for _, rt := range []byte{'n', 'b', 's'} {
+						for _, l := range representative(lt) {
+							for _, r := range representative(rt) {
+								if !yield(c02Case{E: bin(op, l, r), Vars: tableVars}) {
+									return
+								}
+							}
+						}
+					}
+				}
+			}
+			for _, ty := range []byte{'n', 'b', 's'} {
+				for _, x := range representative(ty) {
+					if !yield(c02Case{E: not(x), Vars: tableVars}) || !yield(c02Case{E: neg(x), Vars: tableVars}) {
+						return
+					}
+				}
+			}
+		})
+}
